@@ -12,6 +12,8 @@ import itertools, os
 from ..ir import Program, operands, return_sites, global_roots
 from ..derive import derive, labels_of, Summaries
 from ..effects import external_effect
+from ..pathflags import Engine, Plugin, BudgetExceeded
+from ..lin import Lin
 from .. import frontend
 
 ENGINE = "safec_vsnprintf_s"
@@ -68,14 +70,93 @@ def libc_executes_n(fmt, gram):
     return False
 
 
+STANDARD_PASSES = {"substring": {"A"}, "lookbehind": {"A", "C"}}
+
+
 def filter_rejects(fmt, kind):
-    """model of the pre-scan found in the tree: first literal '%n', optionally excused by a preceding '%'"""
+    """model of the pre-scan found in the tree: the first literal '%n' decides.  Abstract outcomes of the search:
+       A not found, B found at offset 0, C found later with '%' in front, D found later with another character in front.
+       kind is 'substring', 'lookbehind' or a frozenset of the outcomes that are let through (decided from the code, see filter_passes)."""
     k = fmt.find("%n")
-    if k < 0:
-        return False
-    if kind == "substring":
-        return True
-    return k == 0 or fmt[k - 1] != "%"       # kind == "lookbehind"
+    case = "A" if k < 0 else "B" if k == 0 else "C" if fmt[k - 1] == "%" else "D"
+    passes = STANDARD_PASSES.get(kind, kind)
+    return case not in passes
+
+
+class FilterFlags(Plugin):
+    """path plugin: which abstract outcomes of the '%n' search reach the libc sink call"""
+    inline_depth = 0
+
+    def __init__(s, sink, fmt_root):
+        s.sink = sink
+        s.fmt = fmt_root
+
+    def init(s, eng):
+        s.pinned = set()
+        s.passes = set()
+        s.nsink = 0
+        return (None, frozenset(), None)     # (search call id, atoms of characters loaded in front of the match, value of the match)
+
+    def on_event(s, pl, ev, eng, st):
+        if ev[0] == "load" and pl[0] is not None:
+            p = ev[1]
+            if p[0] == "p" and p[1] == s.fmt:
+                off = p[2] - Lin.atom("off:" + pl[0])
+                if off.is_const() and off.c < 0:
+                    a = ev[3].pre + ev[2]["id"]
+                    s.pinned.add(a)
+                    return (pl[0], pl[1] | {a}, pl[2])
+        return pl
+
+    def on_result(s, pl, ev, value):
+        if pl[0] == ev[6] and pl[2] is None:
+            return (pl[0], pl[1], value)
+        return pl
+
+    def on_call(s, pl, call, eng, st):
+        if call[0] != "ext":
+            return [(pl, [])]
+        name, eff, args, i, fr, vid = call[1:7]
+        env, facts, epoch = st
+        if name in SEARCHERS and args and args[0][0] == "p" and args[0][1] == s.fmt:
+            s.pinned.add("off:" + vid)
+            return [((vid, frozenset(), None), [])]
+        if i is s.sink:
+            s.nsink += 1
+            if pl[0] is None:
+                s.passes.add("unsearched")
+                return [(pl, [])]
+            pv = pl[2]
+            isnull = True if pv[1] == "null" else eng.decide(("cmp", "eq", eng.as_lin(pv), Lin.const(0)), facts)
+            if isnull is not False:
+                s.passes.add("A")
+            if isnull is not True:
+                b = eng.decide(("cmp", "eq", Lin.atom("off:" + pl[0]), Lin.const(0)), facts)
+                if b is not False:
+                    s.passes.add("B")
+                if b is not True:
+                    if not pl[1]:
+                        s.passes |= {"C", "D"}
+                    for a in pl[1]:
+                        e = eng.decide(("cmp", "eq", Lin.atom(a), Lin.const(37)), facts)
+                        if e is not False:
+                            s.passes.add("C")
+                        if e is not True:
+                            s.passes.add("D")
+        return [(pl, [])]
+
+
+def filter_passes(prog, fn, pidx, sink):
+    """decide from all paths of fn which search outcomes let the format through to the sink call"""
+    pg = FilterFlags(sink, fn.j["params"][pidx]["id"])
+    eng = Engine(prog, fn, pg, budget=60000)
+    try:
+        eng.run()
+    except BudgetExceeded:
+        return None
+    if pg.nsink == 0:
+        return None
+    return frozenset(pg.passes)
 
 
 def witnesses(kind, gram, maxlen=4, limit=3):
@@ -393,8 +474,26 @@ def analyse_entries(ck, prog, min_entries):
                 ck.notes.append("%s -> %s: format is inspected by code this rule cannot classify (%s); delegation clause not decided for this sink"
                                 % (name, callee, other[0][0]))
                 continue
+            passes = None
+            if fk in STANDARD_PASSES:
+                passes = filter_passes(prog, holder, hk, call)
+                if passes is None:
+                    ck.fail_broken("%s -> %s: the paths from the '%%n' search to the libc sink could not be explored" % (name, callee))
+                    continue
+                row["filters"][-1]["outcomes_let_through"] = sorted(passes)
+                if not passes <= STANDARD_PASSES[fk]:
+                    # the guard lets through more than its shape promises: model exactly what the code does
+                    fk = passes
             w = witnesses(fk, gram)
             if not w:
+                continue
+            if isinstance(fk, frozenset):
+                extra = sorted(fk - {"A", "C"})
+                names = {"B": "a \"%n\" at the very start of the format", "D": "a \"%n\" preceded by an ordinary character", "unsearched": "a path that skips the search"}
+                ck.report("C09:n-filter-lets-through:%s:%s:%s" % (name, callee, "+".join(extra)), "D-delegated-format-filter-unsound", holder.loc(call),
+                          "%s hands the caller's format to libc %s although its \"%%n\" search found %s; accepted and executed by libc: %s"
+                          % (name, callee, " / ".join(names.get(x, x) for x in extra), ", ".join(repr(x) for x in w)),
+                          dict(witnesses=w, chain=chain, outcomes_let_through=sorted(fk)))
                 continue
             if fk == "none":
                 ck.report("C09:no-n-filter:%s:%s" % (name, callee), "D-delegated-format-unfiltered", holder.loc(call),
@@ -447,7 +546,8 @@ def selftest(ck):
     sk = Sink()
     t = analyse_entries(sk, prog, 0)
     got = sorted(sk.reports)
-    want = sorted(["C09:no-n-filter:fx_nofilter:vprintf", "C09:unsound-n-filter:fx_lookbehind:vprintf", "C09:unsound-n-filter:fx_substring:vsscanf"])
+    want = sorted(["C09:no-n-filter:fx_nofilter:vprintf", "C09:unsound-n-filter:fx_lookbehind:vprintf", "C09:unsound-n-filter:fx_substring:vsscanf",
+                   "C09:n-filter-lets-through:fx_lookbehind_start:vprintf:B", "C09:unsound-n-filter:fx_lookbehind_w:vwprintf"])
     want2 = [w.replace("vsscanf", "__isoc99_vsscanf") for w in want]
     if got != want and got != sorted(want2):
         ck.fail_broken("fixture c09.c: delegation rule reported %s, expected %s" % (got, want))
